@@ -2,21 +2,22 @@
    and unmixed.  Theorems only. *)
 From Coq Require Import ZArith List Bool.
 Import ListNotations.
-From KD Require Import C04.Model C04.Spec C04.Lists C04.Arith C04.Sides C04.Proofs C04.Corollaries C04.Batches C04.Example.
+From KD Require Import C04.Model C04.Spec C04.Lists C04.Arith C04.Sides C04.Proofs C04.Corollaries C04.Batches C04.Bounds C04.Loader C04.Passes C04.Example.
 Open Scope Z_scope.
 
 (* the model IS the spec; in the spec every update is followed by
-   [passes_from 0 (sides c) k] = for each config in order, its whole pass iff due *)
-Theorem c05_model_is_spec : forall c mi, WF c mi -> forall n e,
-  run c mi n (init_state e (upe c * e) (spe c * e)) = spec_run c mi e n.
+   [passes_from 0 (sides c) pn k] = for each config in order, its whole pass iff
+   due, showing the next not yet consumed iteration of that config's sampler *)
+Theorem c05_model_is_spec : forall c mi, WF c mi -> forall n e pn, length pn = length (sides c) ->
+  run c mi n (init_state e (upe c * e) (spe c * e) pn) = spec_run c mi e pn n.
 Proof. exact model_eq_spec. Qed.
 Print Assumptions c05_model_is_spec.
 
 (* after every main update, and only there: the non-main part of an update is
    exactly the passes of the due configs, in config order *)
-Theorem c05_update_side_part : forall c e bs j,
-  filter (fun x => negb (is_main x)) (u_events (upd_at c e bs j))
-  = passes_from c 0 (sides c) (counters_at c e bs j).
+Theorem c05_update_side_part : forall c e bs pn j,
+  filter (fun x => negb (is_main x)) (u_events (upd_at c e bs pn j))
+  = passes_from c 0 (sides c) (pn_at c pn e bs j) (counters_at c e bs j).
 Proof. exact update_side_part. Qed.
 Print Assumptions c05_update_side_part.
 
@@ -30,17 +31,51 @@ Proof. exact due_iff. Qed.
 Print Assumptions c05_due_iff_reached_or_crossed.
 
 (* the implementation's per-config pass (running counter, modulo test) is the
-   spec's pass: all indices, shifted into the config's range, cut by the config's
-   (else the main) batch size with a short final batch *)
-Theorem c05_pass_batching : forall c mi, WF c mi -> forall ci sc, wf_side sc ->
-  side_pass c ci (offset_of c ci) sc = side_events c ci sc.
+   spec's pass: all indices of the sampler's p-th iteration, shifted into the
+   config's range, cut by the config's (else the main) batch size with a short
+   final batch *)
+Theorem c05_pass_batching : forall c mi, WF c mi -> forall ci sc p, wf_side sc ->
+  side_pass c ci (offset_of c ci) sc p = side_events c ci sc p.
 Proof. exact side_pass_eq. Qed.
 Print Assumptions c05_pass_batching.
 
-Theorem c05_pass_is_whole : forall c ci sc, 0 < or_default (sbs sc) (cB c) ->
-  map ev_idx (side_events c ci sc) = map (Z.add (offset_of c ci)) (sidx sc).
+Theorem c05_pass_is_whole : forall c ci sc p, 0 < or_default (sbs sc) (cB c) ->
+  map ev_idx (side_events c ci sc p) = map (Z.add (offset_of c ci)) (sidx sc p).
 Proof. exact side_pass_whole. Qed.
 Print Assumptions c05_pass_is_whole.
+
+(* stateful side samplers (shuffling on every iteration, ...): whatever a
+   config's sampler yields on its k-th iteration, the passes over that config
+   which a run shows are - in stream order, each whole, nothing else of that
+   config in between - the iterations number p, p+1, p+2, ... of its sampler,
+   p being how often it was iterated before the run *)
+Theorem c05_passes_consecutive : forall c mi, WF c mi -> forall ci sc, nth_error (sides c) ci = Some sc ->
+  forall n e pn tr p, length pn = length (sides c) -> nth_error pn ci = Some p ->
+  run c mi n (start_state c e pn) = Some tr ->
+  exists m, filter (is_side ci) tr = concat (map (side_events c ci sc) (seq p m)).
+Proof. exact passes_consecutive. Qed.
+Print Assumptions c05_passes_consecutive.
+
+(* the closed form of the iteration number used after the (j+1)-th update of an
+   epoch: the number at the epoch's start plus the number of earlier updates of
+   the epoch at which the config was due *)
+Theorem c05_pass_number : forall c ci sc, nth_error (sides c) ci = Some sc ->
+  forall e bs pn j p, nth_error pn ci = Some p ->
+  filter (is_side ci) (u_events (upd_at c e bs pn j)) =
+  if due sc (counters_at c e bs j) then side_events c ci sc (p + due_count c sc e bs j) else [].
+Proof. exact update_side. Qed.
+Print Assumptions c05_pass_number.
+
+(* index_offsets as the constructor builds it is the list the loops index, and
+   its ci-th entry is len(main data source) + the lengths of the data sources
+   (not of the samplers) of the configs before ci *)
+Theorem c05_index_offsets : forall c, sides c <> [] -> index_offsets c = offsets c.
+Proof. exact index_offsets_eq. Qed.
+Print Assumptions c05_index_offsets.
+
+Theorem c05_offsets_nth : forall c ci, (ci < length (sides c))%nat -> nth ci (offsets c) 0 = offset_of c ci.
+Proof. exact offsets_nth. Qed.
+Print Assumptions c05_offsets_nth.
 
 (* every yielded index resolves to the dataset and sample it was drawn for *)
 Theorem c05_offset_roundtrip : forall c mi ci sc j, WF c mi ->
@@ -54,21 +89,48 @@ Proof. exact main_roundtrip. Qed.
 Print Assumptions c05_main_roundtrip.
 
 (* a zero budget yields exactly one full pass over every config *)
-Theorem c05_zero_budget_one_pass : forall c mi, WF c mi -> zero_budget c = true ->
-  sampler_iter c mi 0 0 0 = Some (spec_eval c 0 (sides c)).
+Theorem c05_zero_budget_one_pass : forall c mi, WF c mi -> forall pn, zero_budget c = true ->
+  sampler_iter c mi 0 0 0 pn = Some (spec_eval c 0 (sides c) pn).
 Proof. exact zero_budget_one_pass. Qed.
 Print Assumptions c05_zero_budget_one_pass.
 
 (* no batch mixes datasets: the batches the batch sampler cuts are exactly the
    stream's own single-dataset batches (tag = dataset), nothing lost or reordered *)
-Theorem c05_no_mixed_batch : forall c mi, WF c mi -> forall n e tr,
-  run c mi n (start_state c e) = Some tr ->
+Theorem c05_no_mixed_batch : forall c mi, WF c mi -> forall n e pn tr, length pn = length (sides c) ->
+  run c mi n (start_state c e pn) = Some tr ->
   exists tagged : list (nat * list Z),
     fst (batches (render tr)) = map snd tagged /\
     flat_map (fun tb => map (pair (fst tb)) (snd tb)) tagged = stream_tags tr.
 Proof. exact no_mixed_batch. Qed.
 Print Assumptions c05_no_mixed_batch.
 
+(* ... and through the DataLoader (concat dataset lookup, then
+   _InterleavedCollator): every batch is handed, whole, to the collator of the
+   one dataset it was drawn from, with exactly the samples its indices were drawn
+   for; neither a lookup nor the collator's single-dataset assertion can fail *)
+Theorem c05_loader_delivers : forall c mi, WF c mi -> idx_ok c mi ->
+  forall n e pn tr, length pn = length (sides c) ->
+  run c mi n (start_state c e pn) = Some tr ->
+  exists tagged : list (nat * list Z),
+    fst (batches (render tr)) = map snd tagged /\
+    flat_map (fun tb => map (pair (fst tb)) (snd tb)) tagged = stream_tags tr /\
+    loader_batches c (fst (batches (render tr))) = Some (map (expected c) tagged).
+Proof. exact loader_delivers. Qed.
+Print Assumptions c05_loader_delivers.
+
 Example c05_premises_satisfiable :
-  WF ex_cfg ex_iter /\ wf_side ex_side /\ nth_error (sides ex_cfg) 1 = Some ex_side /\ 0 <= 3 < dslen ex_side.
-Proof. split; [exact ex_wf|]. split; [exact ex_side_wf|]. split; [reflexivity|]. cbn. split; reflexivity || discriminate. Qed.
+  WF ex_cfg ex_iter /\ wf_side ex_side /\ nth_error (sides ex_cfg) 1 = Some ex_side /\ 0 <= 3 < dslen ex_side
+  /\ idx_ok ex_cfg ex_iter /\ sides ex_cfg <> [].
+Proof.
+  split; [exact ex_wf|]. split; [exact ex_side_wf|]. split; [reflexivity|].
+  split; [cbn; split; reflexivity || discriminate|]. split; [|discriminate].
+  split.
+  - intros e i Hi. cbn in Hi. cbn. repeat (destruct Hi as [<-|Hi]; [split; reflexivity || discriminate|]). inversion Hi.
+  - cbn. constructor; [|constructor; [|constructor]]; intros p j Hj; cbn in Hj; destruct (Nat.even p); cbn in Hj;
+      repeat (destruct Hj as [<-|Hj]; [cbn; split; reflexivity || discriminate|]); inversion Hj.
+Qed.
+(* the example's second config is iterated in another order on its second pass *)
+Example c05_example_passes :
+  option_map (filter (is_side 1)) (run ex_cfg ex_iter 4 (start_state ex_cfg 0 [0; 0]%nat))
+  = Some (concat (map (side_events ex_cfg 1 ex_side) (seq 0 4))).
+Proof. vm_compute. reflexivity. Qed.
